@@ -50,7 +50,8 @@ def verify_one(target, timeout_ms=20000, cross=False, only_labels=None):
             return out
         out["cover"] = dict(eng.cover)
         out["canaries"] = dict(eng.canaries)
-        vac = [k for k, v in eng.canaries.items() if not v]
+        vac = [k for k, v in eng.canaries.items() if v is False]
+        out["canary_unknown"] = [k for k, v in eng.canaries.items() if v == "unknown"]
         if vac:
             out["status"] = "error"
             out["error"] = "vacuity guard: `False` is provable (or satisfiability unknown) at %s - contradictory assumptions?" % vac
@@ -115,6 +116,7 @@ def main(argv=None):
     ap.add_argument("--prop")
     ap.add_argument("--timeout", type=int, default=20000)
     ap.add_argument("-v", action="store_true")
+    ap.add_argument("--models", action="store_true")
     a = ap.parse_args(argv)
     reg = load_contracts()
     targets = list(a.contract)
@@ -131,7 +133,7 @@ def main(argv=None):
         for o in r["obligations"]:
             if o["verdict"] != "proved" or a.v:
                 print("     %-9s %-70s %.3fs %s" % (o["verdict"], o["name"], o["time_s"], o["note"][:100]))
-                if o["verdict"] == "refuted" and o.get("model"):
+                if o["verdict"] == "refuted" and o.get("model") and a.models:
                     m = {k: v for k, v in o["model"].items() if "!" not in k or True}
                     print("        model:", json.dumps(m)[:600])
                 bad += o["verdict"] != "proved"
